@@ -397,6 +397,16 @@ fn history(family: &str, seed: u64, idx: usize, thorough: bool, out: &mut impl W
                 // no cycles: parent must not be a descendant of child — keep it simple: parent handle < child handle
                 if parent < child {
                     c.s.set_parent(p, child, parent);
+                    // the same peer moves the same child again in the next frame (no other peer involved)
+                    if c.rng.chance(1, 4) {
+                        let other: Vec<u32> = live.iter().cloned().filter(|x| *x < child && *x != parent).collect();
+                        if !other.is_empty() {
+                            c.s.step(p);
+                            let p2 = *c.rng.pick(&other);
+                            c.s.trace.push(json!({"ev":"consecutive_reparent","peer":p,"h":child}));
+                            c.s.set_parent(p, child, p2);
+                        }
+                    }
                 }
                 // non-conflicting operations: let the exchange drain before the next one
                 let d = c.drain(60);
@@ -534,11 +544,16 @@ fn history(family: &str, seed: u64, idx: usize, thorough: bool, out: &mut impl W
             c.s.spawn(origin, m, true, &[], None);
             let d = c.drain(40);
             c.s.trace.push(json!({"ev":"drain","quiescent":d.0,"rounds":d.1}));
-            let updates = c.rng.range(1, 3);
+            let updates = c.rng.range(1, 4);
+            let mut prev_list: Option<Vec<u32>> = None;
             for k in 0..updates {
-                // arbitrary order, repeats allowed
+                // arbitrary order, repeats allowed; sometimes only the bind poses change (same joints)
                 let len = if joints.is_empty() { 0 } else { c.rng.below(6) };
-                let list: Vec<u32> = (0..len).map(|_| *c.rng.pick(&joints)).collect();
+                let list: Vec<u32> = match (&prev_list, c.rng.chance(1, 2)) {
+                    (Some(l), true) => l.clone(),
+                    _ => (0..len).map(|_| *c.rng.pick(&joints)).collect(),
+                };
+                prev_list = Some(list.clone());
                 let writer = if k == 0 || c.rng.chance(2, 3) { origin } else { c.any_peer() };
                 let v = CVal::new(Ty::Skinned, (k as i64 + 1) * 100);
                 c.s.trace.push(json!({"ev":"phase","writer":writer,"h":m,"ty":"Skinned","joints":list}));
